@@ -26,7 +26,14 @@ func (s *ByteBlockSource) Size() uint64 {
 	return uint64(len(s.Source))
 }
 func (s *ByteBlockSource) ReadBlock(off uint64, sz int) ([]byte, error) {
-	return s.Source[off : off+uint64(sz)], nil
+	if off >= uint64(len(s.Source)) {
+		return nil, io.EOF
+	}
+	end := off + uint64(sz)
+	if end > uint64(len(s.Source)) {
+		end = uint64(len(s.Source))
+	}
+	return s.Source[off:end], nil
 }
 
 func (s *ByteBlockSource) Close() error {
@@ -116,6 +123,9 @@ func NewReader(src BlockSource, name string) (*Reader, error) {
 	if err != nil {
 		return nil, err
 	}
+	if len(headBlock) < headerSize(1) {
+		return nil, fmt.Errorf("reftable: file too small")
+	}
 	if bytes.Compare(headBlock[:4], magic[:]) != 0 {
 		return nil, fmt.Errorf("reftable: got magic %q, want %q", headBlock[:4], magic)
 	}
@@ -123,6 +133,10 @@ func NewReader(src BlockSource, name string) (*Reader, error) {
 	version := int(headBlock[4])
 	if version != 1 && version != 2 {
 		return nil, fmt.Errorf("reftable: unsupported version %d", version)
+	}
+
+	if src.Size() < uint64(headerSize(version)+footerSize(version)) || len(headBlock) < headerSize(version)+1 {
+		return nil, fmt.Errorf("reftable: file too small")
 	}
 
 	r := &Reader{
@@ -135,6 +149,9 @@ func NewReader(src BlockSource, name string) (*Reader, error) {
 	footBlock, err := src.ReadBlock(r.size, footerSize(version))
 	if err != nil {
 		return nil, err
+	}
+	if len(footBlock) < footerSize(version) {
+		return nil, fmt.Errorf("reftable: short footer")
 	}
 
 	if 0 != bytes.Compare(headBlock[:headerSize(version)], footBlock[:headerSize(version)]) {
@@ -155,6 +172,11 @@ func NewReader(src BlockSource, name string) (*Reader, error) {
 		return nil, err
 	}
 
+	switch r.header.HashID {
+	case SHA1ID, SHA256ID:
+	default:
+		return nil, fmt.Errorf("reftable: unknown hash ID %q", r.header.HashID)
+	}
 	r.hashSize = r.header.HashID.Size()
 	r.header.BlockSize &= (1 << 24) - 1
 
@@ -164,6 +186,9 @@ func NewReader(src BlockSource, name string) (*Reader, error) {
 
 	r.objectIDLen = int(r.footer.ObjOffset & ((1 << 5) - 1))
 	r.footer.ObjOffset >>= 5
+	if r.objectIDLen > r.hashSize {
+		return nil, fmt.Errorf("reftable: object ID length %d exceeds hash size", r.objectIDLen)
+	}
 
 	wantCRC32 := crc32.ChecksumIEEE(footBlock[:footerSize(version)-4])
 	if gotCRC32 != wantCRC32 {
@@ -249,10 +274,13 @@ func (i *tableIter) Next(rec record) (bool, error) {
 // extractBlockSize returns the block size from the block header
 func extractBlockSize(block []byte, off uint64, version int) (typ byte, size uint32, err error) {
 	if off == 0 {
+		if len(block) < headerSize(version) {
+			return 0, 0, fmtError
+		}
 		block = block[headerSize(version):]
 	}
 
-	if !isBlockType(block[0]) {
+	if len(block) < 4 || !isBlockType(block[0]) {
 		return 0, 0, fmtError
 	}
 
@@ -271,6 +299,9 @@ func (r *Reader) newBlockReader(nextOff uint64, wantTyp byte) (br *blockReader, 
 	guessBlockSize := r.header.BlockSize
 	if guessBlockSize == 0 {
 		guessBlockSize = defaultBlockSize
+	}
+	if min := uint32(headerSize(r.version) + 4); guessBlockSize < min {
+		guessBlockSize = min
 	}
 	block, err := r.getBlock(nextOff, guessBlockSize)
 	if err != nil {
@@ -400,7 +431,7 @@ func (r *Reader) seek(rec record) (*tableIter, error) {
 	}
 
 	tabIter, err := r.start(rec.typ(), false)
-	if err != nil {
+	if err != nil || tabIter == nil {
 		return nil, err
 	}
 
@@ -416,6 +447,10 @@ func (r *Reader) seekIndexed(want record) (*tableIter, error) {
 	idxIter, err := r.start(want.typ(), true)
 	if err != nil {
 		return nil, err
+	}
+	if idxIter == nil {
+		// the footer points outside the file.
+		return nil, fmtError
 	}
 
 	wantIdx := &indexRecord{
@@ -437,9 +472,17 @@ func (r *Reader) seekIndexed(want record) (*tableIter, error) {
 			return nil, err
 		}
 
+		if rec.Offset >= idxIter.blockOff {
+			// An index block is written after the blocks it
+			// indexes; anything else would let us loop.
+			return nil, fmtError
+		}
 		tabIter, err := r.tabIterAt(rec.Offset, blockTypeAny)
 		if err != nil {
 			return nil, err
+		}
+		if tabIter == nil {
+			return nil, fmtError
 		}
 
 		err = tabIter.bi.seek(want.key())
@@ -452,7 +495,7 @@ func (r *Reader) seekIndexed(want record) (*tableIter, error) {
 		}
 
 		if tabIter.typ != blockTypeIndex {
-			log.Panicf("got type %c following indexes", tabIter.typ)
+			return nil, fmtError
 		}
 
 		idxIter = tabIter
